@@ -15,6 +15,7 @@ type gnode struct {
 	time             uint32
 	alive            bool
 	kids             int // alive children
+	ntx              int // transactions of the block the header commits to (proof profile)
 }
 
 type gstate struct {
@@ -30,7 +31,8 @@ type gstate struct {
 	savedB  int
 	hasSave bool
 	marked  []int
-	forks   int // branches started so far (kept ≤ 11: Go's sort is only a stable insertion sort up to 12 elements)
+	blocks  bool // headers commit to blocks (proof profile)
+	forks   int  // branches started so far (kept ≤ 11: Go's sort is only a stable insertion sort up to 12 elements)
 }
 
 var bitsClasses = []uint32{0x1d00ffff, 0x1c00ffff, 0x1d00aaaa, 0x207fffff, 0x1d800000, 0x03000000, 0x00123456, 0x21010000, 0x01010000, 0x02000100}
@@ -48,6 +50,14 @@ func (g *gstate) def(prev int) *gnode {
 	g.byID[id] = n
 	g.nodes = append(g.nodes, n)
 	bits := bitsClasses[g.r.Pick(680, 100, 100, 100, 4, 4, 4, 4, 4, 4)]
+	if g.blocks {
+		n.ntx = 1 + g.r.Intn(9)
+		if g.r.Chance(15) {
+			n.ntx = 1 + g.r.Intn(33)
+		}
+		fmt.Printf("hdr id=%d prev=%d bits=%d time=%d mr=%d blk=1\n", id, prev, bits, n.time, n.ntx)
+		return n
+	}
 	fmt.Printf("hdr id=%d prev=%d bits=%d time=%d\n", id, prev, bits, n.time)
 	return n
 }
@@ -219,6 +229,45 @@ func (g *gstate) crashOp() {
 	}
 }
 
+func (g *gstate) proofOp() {
+	// a defined block header: accepted or not, best chain, side branch or pruned
+	var c *gnode
+	for try := 0; try < 10; try++ {
+		c = g.nodes[g.r.Intn(len(g.nodes))]
+		if c.ntx > 0 {
+			break
+		}
+	}
+	if c == nil || c.ntx == 0 {
+		return
+	}
+	form := []string{"header", "hash"}[g.r.Intn(2)]
+	tx := g.r.Intn(c.ntx)
+	if g.r.Chance(25) {
+		tx = c.ntx - 1
+	}
+	mut := "none"
+	switch g.r.Pick(40, 10, 15, 20, 8, 4, 3) {
+	case 1:
+		mut = "txid"
+	case 2:
+		mut = fmt.Sprintf("path:%d", g.r.Intn(6))
+	case 3:
+		d := []int{1, -1, 2, 4, 8, 16, 32, 64, -8, 1024}[g.r.Intn(10)]
+		mut = fmt.Sprintf("index:%d", d)
+	case 4:
+		o := g.nodes[g.r.Intn(len(g.nodes))]
+		if o.id != 0 && o.id != c.id {
+			mut = fmt.Sprintf("other:%d", o.id)
+		}
+	case 5:
+		mut = "unknownhash"
+	case 6:
+		mut = "noblock"
+	}
+	fmt.Printf("proof block=%d n=%d tx=%d form=%s mut=%s\n", c.id, c.ntx, tx, form, mut)
+}
+
 func (g *gstate) refuseOp() {
 	// an adversarial submission between two dumps: the second dump must equal the first when refused
 	fmt.Println("dump")
@@ -266,7 +315,7 @@ func gen(seed uint64, scripts int, tier string, profile string) {
 		if tier == "thorough" {
 			nops = 30 + r.Intn(220)
 		}
-		pClean, pSL, pCrash, pMark, pLoc, pRefuse := 0, 0, 0, 0, 0, 0
+		pClean, pSL, pCrash, pMark, pLoc, pRefuse, pProof := 0, 0, 0, 0, 0, 0, 0
 		switch profile {
 		case "clean":
 			pClean = 9
@@ -280,11 +329,14 @@ func gen(seed uint64, scripts int, tier string, profile string) {
 			pLoc, pClean = 10, 3
 		case "refuse":
 			pRefuse, pClean = 10, 2
+		case "proof":
+			pProof, pClean, pSL = 25, 3, 2
+			g.blocks = true
 		case "mixed":
 			pClean, pSL, pCrash, pMark, pLoc, pRefuse = 4, 3, 1, 2, 3, 2
 		}
 		for i := 0; i < nops; i++ {
-			switch r.Pick(46, 10, 12, 3, 2, 3, pClean, pSL, pCrash, pMark, pLoc, pRefuse, 3, 1) {
+			switch r.Pick(46, 10, 12, 3, 2, 3, pClean, pSL, pCrash, pMark, pLoc, pRefuse, 3, 1, pProof) {
 			case 0: // extend the focus chain
 				n := g.def(g.focus)
 				g.sub(n.id)
@@ -368,6 +420,8 @@ func gen(seed uint64, scripts int, tier string, profile string) {
 				fmt.Println("dump")
 			case 13:
 				fmt.Println("subscribe")
+			case 14:
+				g.proofOp()
 			}
 		}
 		fmt.Println("dump")
